@@ -11,6 +11,7 @@ import (
 	"os"
 	"path/filepath"
 	"strings"
+	"unicode/utf8"
 
 	"flag"
 )
@@ -54,8 +55,16 @@ func TrustedSourceFromConstant(src stringConstant) TrustedSource {
 //
 // dir or src may be empty if either of these path segments are not required.
 func TrustedSourceFromConstantDir(dir stringConstant, src TrustedSource, filename string) (TrustedSource, error) {
-	if i := strings.IndexAny(filename, string([]rune{filepath.Separator, filepath.ListSeparator})); i != -1 {
+	// Every byte the host OS takes for a path separator counts, not only filepath.Separator:
+	// on Windows '/' separates path elements as well as '\\'.
+	if i := strings.IndexFunc(filename, func(r rune) bool {
+		return r == filepath.ListSeparator || r < utf8.RuneSelf && os.IsPathSeparator(uint8(r))
+	}); i != -1 {
 		return TrustedSource{}, fmt.Errorf("filename %q must not contain the separator %q", filename, filename[i])
+	}
+	if vol := filepath.VolumeName(filename); vol != "" {
+		// "C:x" contains no separator, but filepath.Join does not put it below dir.
+		return TrustedSource{}, fmt.Errorf("filename %q must not start with the volume name %q", filename, vol)
 	}
 	if filename == ".." {
 		return TrustedSource{}, fmt.Errorf("filename must not be the special name %q", filename)
